@@ -9,22 +9,23 @@ from ..util import switch_table, find_switches, is_assign
 EXPLANATION = (
     "Static decision of structural clauses of C02: (1) the type->value-size tables used for cursor "
     "arithmetic (page_reader.get_value_size, carquet_column_read_batch, carquet_column_skip, "
-    "batch_reader.get_type_size; obtained by executing a dedicated size function per enum value or from the "
-    "switch, also inside a helper) agree on all eight physical types, and the "
+    "batch_reader.get_type_size; obtained by executing the size function per enum value - switch, "
+    "if-chain or a const lookup table of structs alike) agree on all eight physical types, and the "
     "fixed-width tables (dictionary entry width, statistics value size) agree with them on the six "
-    "fixed-width rows; (2) the column reader's cursor fields (values_remaining, page_values_read, "
-    "page_num_values, page_loaded, current_page, page_header_size, page_compressed_size, "
-    "data_start_offset) are written only by the page reader's functions and the frozen set of other "
-    "writers; values_remaining and page_values_read move by the same amount; current_page advances "
-    "only by page_header_size + page_compressed_size, only together with clearing page_loaded; a "
-    "whole-page (set-form) cursor update is guarded by page_values_read == 0; (3) skip changes reader "
-    "state only through carquet_column_read_batch; (4) every scalar null-bitmap builder sets a bit "
-    "iff def < max_def (one polarity), and the zero-copy branch allocates a zeroed bitmap; (5) every "
-    "subscript of a per-leaf array (schema levels/leaf indices, row-group chunks), a per-element array, a "
-    "per-projection array (col_readers, batch columns, projected_columns) or the row-group list uses an "
-    "index whose provenance (translating array load, loop bound, range check, lookup function) is in the "
-    "array's own index space - so a projected column's levels, type and null bitmap are its own. Decides "
-    "these clauses, not that the dense-values offset is right for nullable pages.")
+    "fixed-width rows; (2) the column reader's cursor fields are written only by the page reader's "
+    "functions and the frozen set of other writers; carquet_read_next_page, executed abstractly over {no "
+    "page, partly consumed, fully consumed, over-consumed} x request sizes x wanted level arrays x a "
+    "failing page load with the page-loader dispatcher and memcpy hooked: a page is stepped over (by "
+    "page_header_size + page_compressed_size, page_loaded cleared) and a new one loaded only when none is "
+    "loaded or the loaded one is consumed; min(max_values, left in page) values and levels are copied "
+    "from the page position scaled by the value size; page_values_read, values_remaining and *values_read "
+    "move by that count; a failed load copies nothing; a whole-page (set-form) cursor update in the batch "
+    "reader is guarded by page_values_read == 0 (also when the zero-copy arm is a helper); (3) skip "
+    "changes reader state only through carquet_column_read_batch; (4) every scalar null-bitmap builder "
+    "sets a bit iff def < max_def (one polarity), and every null bitmap of the batch reader starts from "
+    "calloc; (5) every subscript of a per-leaf array, a per-element array, a per-projection array or the "
+    "row-group list uses an index whose provenance is in the array's own index space. Decides these "
+    "clauses, not that the dense-values offset is right for nullable pages.")
 
 PR = "src/reader/page_reader.c"
 CR = "src/reader/column_reader.c"
